@@ -985,6 +985,19 @@ func (in *Interp) binop(op string, a, b *T, operandType types.Type) *T {
 			}
 		}
 	}
+	if op == "&&" || op == "||" {
+		isB := func(t *T, v string) bool { return t.Op == "const" && t.Name == v }
+		switch {
+		case op == "&&" && (isB(a, "false") || isB(b, "false")):
+			return tConst("false")
+		case op == "||" && (isB(a, "true") || isB(b, "true")):
+			return tConst("true")
+		case op == "&&" && isB(a, "true"), op == "||" && isB(a, "false"):
+			return b
+		case op == "&&" && isB(b, "true"), op == "||" && isB(b, "false"):
+			return a
+		}
+	}
 	if op == "==" || op == "!=" {
 		if isConstTerm(a) && isConstTerm(b) && (a.Op != "const" || a.Obj == nil || b.Obj == nil || true) {
 			eq := a.Eq(b)
